@@ -52,7 +52,7 @@ CLAIMED["C02"] = ("Partial deductive proof of the safety and lost-detection part
          "4.2", CLAIMED["C06"][3])
 
 CLAIMED["C01"] = ("Partial deductive proof against an abstract map (ghost key set per subtree, ghost key->value and key->slot maps, Len = t.size) under an ordering invariant ordOK (keys of a node strictly ascending; a subtree's keys lie strictly between the separators around it; a key of a node's set that lies strictly between two adjacent separators is in the child between them; an equivalent key is the same key; every key has exactly one slot): Get, Contains, First, Last return what the ideal sorted map returns for every tree satisfying the invariant, every key and every strict weak order given as a three-way compare; Put either overwrites the value of the one equivalent key in place or adds the key (domain, values, Len change exactly as in the ideal map) and Delete removes exactly the equivalent key; the invariant is re-established by Put's in-place overwrite and leaf insertion and by Delete's leaf removal and predecessor replacement; the less->compare adaptation (xsort.LessCompare) turns a strict weak `less` into such a compare; NewMap/NewMapCmp/NewSet/NewSetCmp start from the empty map and every Map/Set method delegates to the shared tree with these contracts (copies of a Map/Set share the pointer).",
-         "Trusted: gvc, SMT solvers. For the five rebalancing steps (overfill = node split, rotateLeft, rotateRight, mergeTwo, removeRightmost) the following IS proved: the data movement (which key/value/child ends in which slot of which node: split at amalgam position 8, rotation through exactly the separator between the two siblings, merge around it, predecessor = last pair of the rightmost leaf), the value half of the invariant (slot value = abstract value of the slot key) and the unchanged abstract value map. NOT proved: that these movements re-establish the key half of the invariant (sortedness, separator bracketing, subtree key sets, one slot per key) - a trusted postcondition of those five functions, listed by every run in the evidence under assumptions; for rotateLeft and rotateRight the thorough tier derives it from the proved postconditions with lemma clients (about 30 steps each), for mergeTwo, removeRightmost and overfill it stays trusted. Not covered: Iterate/Range/RangeReverse results (order, bounds, completeness need successor reasoning on cursors), Len == cardinality of the key set (only the per-operation +1/-1/0 is proved), the concurrent-Put clause (data races: goroutines).",
+         "Trusted: gvc, SMT solvers. For the five rebalancing steps (overfill = node split, rotateLeft, rotateRight, mergeTwo, removeRightmost) the following IS proved: the data movement (which key/value/child ends in which slot of which node: split at amalgam position 8, rotation through exactly the separator between the two siblings, merge around it, predecessor = last pair of the rightmost leaf), the value half of the invariant (slot value = abstract value of the slot key) and the unchanged abstract value map. NOT proved: that these movements re-establish the key half of the invariant (sortedness, separator bracketing, subtree key sets, one slot per key) - a trusted postcondition of those five functions, listed by every run in the evidence under assumptions; for rotateLeft and rotateRight the thorough tier derives it from the proved postconditions with lemma clients (about 30 steps each), for mergeTwo, removeRightmost (whose key-set effects along the rightmost spine are proved; only the invariant-with-one-exception is trusted) and overfill it stays trusted. Not covered: Iterate/Range/RangeReverse results (order, bounds, completeness need successor reasoning on cursors), Len == cardinality of the key set (only the per-operation +1/-1/0 is proved), the concurrent-Put clause (data races: goroutines).",
          "4.1", CLAIMED["C06"][3])
 
 NOT_APPLICABLE = {
